@@ -160,6 +160,14 @@ func verifOptions(dir string, tag string) Options {
 		SyncStrategy:       SyncStrategy(verifParam("sync")),
 		DataFileMergeRatio: 0,
 	}
+	if sw := verifParam("cfgsweep"); sw >= 1 && tag == "" {
+		// the configuration itself is a choice point: every IndexType x {1,3} shards x FileIOType x SyncStrategy
+		// combination is explored for the same symbolic history (no hand-picked combinations)
+		o.IndexType = index.IndexType(1 + verifChoice("cfg-index", 3))
+		o.ShardNum = 1 + 2*verifChoice("cfg-shards", 2)
+		o.FileIOType = fio.FileIOType(verifChoice("cfg-io", 2))
+		o.SyncStrategy = SyncStrategy(verifChoice("cfg-sync", 4-sw)) // cfgsweep 2: No / Always only (Threshold adds a symbolic BytesPerSync)
+	}
 	if o.IndexType == 0 {
 		o.IndexType = index.HashMap
 	}
